@@ -227,7 +227,8 @@ class ViscousDrag(om.ExplicitComponent):
             elif self.k_lam < 1:
                 dcd__dRe = self.k_lam * (dcdlam_tr__dRe - dcdturb_tr__dRe) + dcdturb_total__dRe
             else:
-                dcd__dRe = 0.0
+                # fully laminar: cd = k_lam * cdlam_tr (both turbulent terms are zero), which still depends on Re
+                dcd__dRe = self.k_lam * dcdlam_tr__dRe
             ddoq__dRe = 2 * chords * dcd__dRe
 
             dDoq__dRe = np.sum(widths * ddoq__dRe * FF)
